@@ -782,3 +782,96 @@ Qed.
 Corollary split_vs_whole a reads :
   cut (snd (feed_tr true a chan_init reads)) = cut (snd (feed_tr true a chan_init [concat reads])).
 Proof. apply split_independent. cbn [concat]. now rewrite app_nil_r. Qed.
+
+(* ------------------------------------------------------------------ *)
+(* the events are what the model's state records: the bytes the I/O side put
+   on the wire and the requests it queued, in order *)
+Definition ev_out (e : event) : bytes :=
+  match e with EvContinue => continue_bytes | EvDone _ => [] end.
+Definition ev_reqs (e : event) : list parser :=
+  match e with EvDone o => if empty o then [] else [o] | EvContinue => [] end.
+
+Definition tr_state (ab : bool) (c c' : chan) (t : list event) : Prop :=
+  outlog c' = outlog c ++ flat_map ev_out t /\
+  map (obs ab) (requests c') = map (obs ab) (requests c) ++ flat_map ev_reqs t.
+
+Lemma tr_state_refl ab c : tr_state ab c c [].
+Proof. split; cbn; now rewrite app_nil_r. Qed.
+
+Lemma tr_state_trans ab c1 c2 c3 t1 t2 :
+  tr_state ab c1 c2 t1 -> tr_state ab c2 c3 t2 -> tr_state ab c1 c3 (t1 ++ t2).
+Proof.
+  intros (A1 & A2) (B1 & B2). split; rewrite flat_map_app.
+  - rewrite B1, A1. now rewrite app_assoc.
+  - rewrite B2, A2. now rewrite app_assoc.
+Qed.
+
+Lemma empty_obs ab r : empty (obs ab r) = empty r.
+Proof. reflexivity. Qed.
+
+Lemma post'_outlog c r1 : outlog (post' c r1) = outlog c ++ (if send_cond c r1 then continue_bytes else []).
+Proof.
+  unfold post'. cbv zeta.
+  destruct (send_cond c r1); destruct (completed r1); try destruct (negb (empty r1)); try destruct (_ =? _)%nat;
+    csimpl; rewrite ?app_nil_r; reflexivity.
+Qed.
+
+Lemma post'_requests c r1 :
+  requests (post' c r1) = requests c ++
+    (if completed r1 && negb (empty r1)
+     then [if send_cond c r1 then r1 <| expect_continue := false |> else r1] else []).
+Proof.
+  unfold post'. cbv zeta.
+  destruct (send_cond c r1); destruct (completed r1); try destruct (negb (empty r1)); try destruct (_ =? _)%nat;
+    csimpl; cbn [andb]; rewrite ?app_nil_r; reflexivity.
+Qed.
+
+Lemma ev_reqs_done o (r : parser) : empty o = empty r ->
+  flat_map ev_reqs [EvDone o] = if negb (empty r) then [o] else [].
+Proof. intros E. cbn [flat_map ev_reqs]. rewrite E. destruct (empty r); reflexivity. Qed.
+
+Lemma post_trace ab c r1 : tr_state ab c (post c r1) (post_ev ab c r1).
+Proof.
+  rewrite post_eq. unfold tr_state. rewrite post'_outlog, post'_requests, map_app. unfold post_ev.
+  rewrite !flat_map_app.
+  split.
+  - f_equal. destruct (send_cond c r1); destruct (completed r1); reflexivity.
+  - f_equal.
+    set (r2 := if send_cond c r1 then r1 <| expect_continue := false |> else r1).
+    assert (E : empty (obs ab r2) = empty r1).
+    { rewrite empty_obs. subst r2. destruct (send_cond c r1); reflexivity. }
+    set (o := obs ab r2) in *.
+    assert (Eo : map (obs ab) [r2] = [o]) by reflexivity.
+    clearbody o. clearbody r2.
+    destruct (completed r1); cbn [andb].
+    + rewrite (ev_reqs_done o r1 E).
+      destruct (send_cond c r1); cbn [flat_map ev_reqs app]; destruct (negb (empty r1)); auto.
+    + destruct (send_cond c r1); reflexivity.
+Qed.
+
+Lemma loop_trace ab a fuel : forall c data c' t,
+  loop_tr ab fuel a c data = (COk c', t) -> tr_state ab c c' t.
+Proof.
+  induction fuel as [|f IH]; intros c data c' t; [discriminate|].
+  cbn [loop_tr]. destruct (received a _ data) as [r1 n| | |]; try discriminate.
+  destruct (_ <=? _)%Z.
+  - intros H; injection H as <- <-. apply post_trace.
+  - destruct (loop_tr ab f a (post c r1) _) as [res t2] eqn:E. intros H; injection H as -> <-.
+    eapply tr_state_trans; [apply post_trace | eapply IH; eauto].
+Qed.
+
+Lemma chan_trace ab a c data c' t : chan_tr ab a c data = (COk c', t) -> tr_state ab c c' t.
+Proof.
+  unfold chan_tr. destruct data; [intros H; injection H as <- <-; apply tr_state_refl|].
+  destruct (_ || _); [intros H; injection H as <- <-; apply tr_state_refl|]. apply loop_trace.
+Qed.
+
+Theorem feed_trace ab a : forall reads c c' t,
+  feed_tr ab a c reads = (COk c', t) -> tr_state ab c c' t.
+Proof.
+  induction reads as [|d rest IH]; intros c c' t.
+  - intros H; injection H as <- <-. apply tr_state_refl.
+  - cbn [feed_tr]. destruct (chan_tr ab a c d) as [[c1| | |] t1] eqn:E; cbn [bind]; try discriminate.
+    destruct (feed_tr ab a c1 rest) as [r2 t2] eqn:E2. intros H; injection H as -> <-.
+    eapply tr_state_trans; [eapply chan_trace; eauto | eapply IH; eauto].
+Qed.
